@@ -21,7 +21,7 @@ MANIFEST = dict(
         technique="TLA+ spec + TLC exhaustive check; TLC-generated behaviours replayed into the C code; TLC trace validation of recorded runs",
         design="5/C14")
 CFG = {
-    "quick":    dict(mc=["MC_NodeTree.cfg"], gen=["Gen_NodeTree.cfg"], nhist=40, steps=120),
+    "quick":    dict(mc=["MC_NodeTree.cfg"], gen=["Gen_NodeTree.cfg"], nhist=30, steps=100),
     "thorough": dict(mc=["MC_NodeTree_t.cfg"], gen=["Gen_NodeTree.cfg"], nhist=200, steps=300),
 }
 SEAM = ("malloc=vf_malloc", "free=vf_free", "calloc=vf_calloc", "realloc=vf_realloc")
